@@ -60,31 +60,15 @@ theorem nan_inf_f32 (o : EncOpts) (bits : UInt32) (h : Enc.fmtF32 bits = none) :
   simp only [encode, encodeJ, encV, h, floatLit]
   split <;> rfl
 
-/-- the float64 values without a literal are exactly the bit patterns with an all-ones exponent (NaN, ±Inf) -/
-theorem fmtF64_none_iff (bits : UInt64) : Enc.fmtF64 bits = none ↔ bits.toNat / 2 ^ 52 % 2048 = 2047 := by
-  have hcl : ∀ (c : FClass) (k : Nat), fmtClass c k = none ↔ c = .nanInf := by
-    intro c k
-    cases c with
-    | zero neg => simp [fmtClass]
-    | nanInf => simp [fmtClass]
-    | fin neg b =>
-      simp only [fmtClass]
-      constructor
-      · intro h; split at h <;> cases h
-      · intro h; cases h
-  unfold fmtF64
-  rw [hcl]
-  unfold classify64
-  simp only
-  constructor
-  · intro h
-    by_cases h1 : (bits.toNat / 2 ^ 52 % 2048 == 2047) = true
-    · simpa using h1
-    · simp only [h1] at h
-      repeat' split at h
-      all_goals simp_all
-  · intro h
-    simp [h]
+/-- NaN and the infinities (all-ones exponent field) have no literal in the project's float formatter
+    (`Num.fmtF64`, core C), so by `nan_inf_f64` they are an error / `null` -/
+theorem nan_inf_have_no_literal (bits : UInt64) (h : bits.toNat % 2 ^ 63 / 2 ^ 52 = 2047) :
+    Enc.fmtF64 bits = none := by
+  have hs : Num.signBit Num.f64 = 2 ^ 63 := by decide
+  have hf : (Num.fields Num.f64 (bits.toNat % 2 ^ 63)).1 = 2 ^ Num.f64.ebits - 1 := by
+    simp only [Num.fields, Num.f64]
+    exact h
+  simp only [Enc.fmtF64, Num.fmtF64, Num.fmtBits, Num.fmtBitsRaw, hs, hf, if_true]
 
 /-- invalid json.Number text is an error (the empty Number is the number 0, as in encoding/json) -/
 theorem invalid_number (o : EncOpts) (s : Bytes) (hne : s ≠ []) (h : Enc.validNumber s = false) :
@@ -173,17 +157,19 @@ theorem raw_message_checked (o : EncOpts) (m b : Bytes) (h : Enc.encode o .raw (
 
 /-- PARTIAL (hence the name).  For every option set, and for the sub-universe `Enc.rtOK` - booleans,
     integers of every width (in range), valid-UTF-8 strings, pointers (to something that is not itself
-    written as null), slices (other than []byte), arrays, and structs whose fields are all kept, plain
-    (no `,string` / `omitempty` / `omitzero`) and named by pairwise different valid-UTF-8 names, nested
-    arbitrarily - the text of a
+    written as null), finite floats of both widths (bit for bit, through the exact decimal->binary model of
+    core C: `Num.toF64Bits` / `Num.toF32Bits`), slices (other than []byte), arrays, string-keyed maps whose
+    entries are listed in bytewise key order (the order of the wire syntax and of SortMapKeys, so no
+    permutation enters the statement), and structs whose fields are all kept, plain (no `,string` /
+    `omitempty` / `omitzero`) and named by pairwise different valid-UTF-8 names, nested arbitrarily - the text of a
     successful Marshal decodes back (`Enc.decodeBack`: strict parse, then the small typed decoder of
     Model/EncDec.lean) into a value equal to the original: integers exactly, strings byte for byte,
     containers element-wise; the only tolerated difference is a nil slice having become an empty one,
     and only under NoNullSliceOrMap.
-    Missing from the carried universe: floats (needs the exact decimal->binary theorem of C19), []byte
-    (base64 decoding), interface{}, maps (the decoder side `decM` is modelled and run in the correspondence;
-    the theorem would have to speak of entries up to the permutation SortMapKeys applies), struct fields with
-    options or dropped by dominance / "-", json.Number, RawMessage and the callback leaves. -/
+    Missing from the carried universe: []byte (base64 decoding), interface{}, maps with non-string keys or
+    with entries listed out of key order (the statement would have to speak of entries up to the permutation
+    SortMapKeys applies), struct fields with options or dropped by dominance / "-", json.Number, RawMessage
+    and the callback leaves. -/
 theorem roundtrip_partial (o : EncOpts) (T : GoType) (v : GoVal) (b : Bytes)
     (hwf : Enc.rtOK T v = true) (h : Enc.encode o T v = .ok b) :
     ∃ v', Enc.decodeBack T b = .ok v' ∧ Enc.eqv o.noNullSliceOrMap v v' = true := by
@@ -211,6 +197,11 @@ theorem roundtrip_partial_strict (o : EncOpts) (ho : o.noNullSliceOrMap = false)
 example : Enc.rtOK (.st [("A", none, .int 8), ("B", some [98], .sl .bool)]) (.st [.int (-128), .sl [.bool true]]) = true ∧
     Enc.encode {} (.st [("A", none, .int 8), ("B", some [98], .sl .bool)]) (.st [.int (-128), .sl [.bool true]]) =
       .ok (ascii "{\"A\":-128,\"b\":[true]}") := by
+  decide +kernel
+
+example : Enc.rtOK (.map .str (.sl .f64)) (.map [(.str [97], .sl [.f64 0x3fb999999999999a, .f64 0x8000000000000000]), (.str [97, 98], .nil)]) = true ∧
+    Enc.encode EncOpts.std (.map .str (.sl .f64)) (.map [(.str [97], .sl [.f64 0x3fb999999999999a, .f64 0x8000000000000000]), (.str [97, 98], .nil)]) =
+      .ok (ascii "{\"a\":[0.1,-0],\"ab\":null}") := by
   decide +kernel
 
 example : Enc.rtOK (.sl (.ptr (.arr 2 .str))) (.sl [.ptr (.arr [.str [34, 195, 169], .str []]), .nil]) = true ∧
